@@ -4,7 +4,7 @@
    [halt = int(len(X) * percentage)] ([h]).  [X[idx[:halt], :]] is [gather X (firstn h perm)].
    parser: a loaded array is a list of rows [id; label; f_1 .. f_nf]; every cell is a [Z]
    (ids and labels as integers, features as opaque float32 bit patterns). *)
-From Coq Require Import List Arith ZArith.
+From Coq Require Import List Arith ZArith Floats.
 Import ListNotations.
 
 Section Split.
@@ -29,6 +29,19 @@ Section Split.
   Definition merge (X1 X2 : list A) (Y1 Y2 : list B) : list A * list B :=
     (X1 ++ X2, Y1 ++ Y2).
 End Split.
+
+(* [halt = int(len(X) * percentage)]: binary64 product (round to nearest even), truncated towards 0.
+   (infinite / NaN products make Python raise; they are mapped to 0 here and never generated.) *)
+Definition trunc_float (f : float) : Z :=
+  match Prim2SF f with
+  | S754_finite s m e =>
+      let a := if Z.leb 0 e then (Zpos m * 2 ^ e)%Z else (Zpos m / 2 ^ (- e))%Z in
+      if s then (- a)%Z else a
+  | _ => 0%Z
+  end.
+
+Definition halt (n : nat) (percentage : float) : nat :=
+  Z.to_nat (trunc_float (PrimFloat.mul (PrimFloat.of_uint63 (Uint63.of_Z (Z.of_nat n))) percentage)).
 
 (* samples paired with their label and original row index *)
 Definition combine3 {A B C} (X : list A) (Y : list B) (I : list C) : list (A * (B * C)) :=
